@@ -128,64 +128,74 @@ var templates = map[string]string{
 	"ShowQueries.default":           `SHOW QUERIES`,
 	"ShowServers.default":           `SHOW SERVERS`,
 
-	"ShowFieldKeys.default":              `SHOW FIELD KEYS`,
-	"ShowFieldKeys.on":                   `SHOW FIELD KEYS ON {a}`,
-	"ShowFieldKeys.from":                 `SHOW FIELD KEYS FROM {a}..m`,
-	"ShowSeries.default":                 `SHOW SERIES`,
-	"ShowSeries.on":                      `SHOW SERIES ON {a}`,
-	"ShowSeries.from":                    `SHOW SERIES FROM {a}..m`,
-	"ShowTagKeys.default":                `SHOW TAG KEYS`,
-	"ShowTagKeys.on":                     `SHOW TAG KEYS ON {a}`,
-	"ShowTagValues.default":              `SHOW TAG VALUES WITH KEY = k`,
-	"ShowTagValues.on":                   `SHOW TAG VALUES ON {a} WITH KEY = k`,
-	"ShowMeasurements.default":           `SHOW MEASUREMENTS`,
-	"ShowMeasurements.on":                `SHOW MEASUREMENTS ON {a}`,
-	"ShowMeasurements.on_rp":             `SHOW MEASUREMENTS ON {a}.rp`,
-	"ShowMeasurements.wild":              `SHOW MEASUREMENTS ON *.*`,
-	"ShowRetentionPolicies.default":      `SHOW RETENTION POLICIES`,
-	"ShowRetentionPolicies.on":           `SHOW RETENTION POLICIES ON {a}`,
-	"ShowSeriesCardinality.default":      `SHOW SERIES CARDINALITY`,
-	"ShowSeriesCardinality.on":           `SHOW SERIES CARDINALITY ON {a}`,
-	"ShowSeriesCardinality.exact_default": `SHOW SERIES EXACT CARDINALITY`,
-	"ShowSeriesCardinality.exact_on":     `SHOW SERIES EXACT CARDINALITY ON {a}`,
-	"ShowSeriesCardinality.exact_on_from": `SHOW SERIES EXACT CARDINALITY ON {a} FROM m`,
-	"ShowMeasurementCardinality.default": `SHOW MEASUREMENT CARDINALITY`,
-	"ShowMeasurementCardinality.on":      `SHOW MEASUREMENT CARDINALITY ON {a}`,
+	"ShowFieldKeys.default":                    `SHOW FIELD KEYS`,
+	"ShowFieldKeys.on":                         `SHOW FIELD KEYS ON {a}`,
+	"ShowFieldKeys.from":                       `SHOW FIELD KEYS FROM {a}..m`,
+	"ShowSeries.default":                       `SHOW SERIES`,
+	"ShowSeries.on":                            `SHOW SERIES ON {a}`,
+	"ShowSeries.from":                          `SHOW SERIES FROM {a}..m`,
+	"ShowTagKeys.default":                      `SHOW TAG KEYS`,
+	"ShowTagKeys.on":                           `SHOW TAG KEYS ON {a}`,
+	"ShowTagValues.default":                    `SHOW TAG VALUES WITH KEY = k`,
+	"ShowTagValues.on":                         `SHOW TAG VALUES ON {a} WITH KEY = k`,
+	"ShowMeasurements.default":                 `SHOW MEASUREMENTS`,
+	"ShowMeasurements.on":                      `SHOW MEASUREMENTS ON {a}`,
+	"ShowMeasurements.on_rp":                   `SHOW MEASUREMENTS ON {a}.rp`,
+	"ShowMeasurements.wild":                    `SHOW MEASUREMENTS ON *.*`,
+	"ShowRetentionPolicies.default":            `SHOW RETENTION POLICIES`,
+	"ShowRetentionPolicies.on":                 `SHOW RETENTION POLICIES ON {a}`,
+	"ShowSeriesCardinality.default":            `SHOW SERIES CARDINALITY`,
+	"ShowSeriesCardinality.on":                 `SHOW SERIES CARDINALITY ON {a}`,
+	"ShowSeriesCardinality.exact_default":      `SHOW SERIES EXACT CARDINALITY`,
+	"ShowSeriesCardinality.exact_on":           `SHOW SERIES EXACT CARDINALITY ON {a}`,
+	"ShowSeriesCardinality.exact_on_from":      `SHOW SERIES EXACT CARDINALITY ON {a} FROM m`,
+	"ShowMeasurementCardinality.default":       `SHOW MEASUREMENT CARDINALITY`,
+	"ShowMeasurementCardinality.on":            `SHOW MEASUREMENT CARDINALITY ON {a}`,
 	"ShowMeasurementCardinality.exact_default": `SHOW MEASUREMENT EXACT CARDINALITY`,
 	"ShowMeasurementCardinality.exact_on":      `SHOW MEASUREMENT EXACT CARDINALITY ON {a}`,
 	"ShowMeasurementCardinality.exact_on_from": `SHOW MEASUREMENT EXACT CARDINALITY ON {a} FROM m`,
-	"ShowTagKeyCardinality.default":      `SHOW TAG KEY CARDINALITY`,
-	"ShowTagKeyCardinality.on":           `SHOW TAG KEY CARDINALITY ON {a}`,
-	"ShowTagKeyCardinality.exact_on":     `SHOW TAG KEY EXACT CARDINALITY ON {a}`,
-	"ShowTagKeyCardinality.on_from":      `SHOW TAG KEY CARDINALITY ON {a} FROM m`,
-	"ShowFieldKeyCardinality.default":    `SHOW FIELD KEY CARDINALITY`,
-	"ShowFieldKeyCardinality.on":         `SHOW FIELD KEY CARDINALITY ON {a}`,
-	"ShowFieldKeyCardinality.exact_on":   `SHOW FIELD KEY EXACT CARDINALITY ON {a}`,
-	"ShowFieldKeyCardinality.on_from":    `SHOW FIELD KEY CARDINALITY ON {a} FROM m`,
-	"ShowTagValuesCardinality.default":   `SHOW TAG VALUES CARDINALITY WITH KEY = k`,
-	"ShowTagValuesCardinality.on":        `SHOW TAG VALUES CARDINALITY ON {a} WITH KEY = k`,
-	"ShowTagValuesCardinality.exact_on":  `SHOW TAG VALUES EXACT CARDINALITY ON {a} WITH KEY = k`,
-	"ShowTagValuesCardinality.on_from":   `SHOW TAG VALUES CARDINALITY ON {a} FROM m WITH KEY = k`,
+	"ShowTagKeyCardinality.default":            `SHOW TAG KEY CARDINALITY`,
+	"ShowTagKeyCardinality.on":                 `SHOW TAG KEY CARDINALITY ON {a}`,
+	"ShowTagKeyCardinality.exact_on":           `SHOW TAG KEY EXACT CARDINALITY ON {a}`,
+	"ShowTagKeyCardinality.on_from":            `SHOW TAG KEY CARDINALITY ON {a} FROM m`,
+	"ShowFieldKeyCardinality.default":          `SHOW FIELD KEY CARDINALITY`,
+	"ShowFieldKeyCardinality.on":               `SHOW FIELD KEY CARDINALITY ON {a}`,
+	"ShowFieldKeyCardinality.exact_on":         `SHOW FIELD KEY EXACT CARDINALITY ON {a}`,
+	"ShowFieldKeyCardinality.on_from":          `SHOW FIELD KEY CARDINALITY ON {a} FROM m`,
+	"ShowTagValuesCardinality.default":         `SHOW TAG VALUES CARDINALITY WITH KEY = k`,
+	"ShowTagValuesCardinality.on":              `SHOW TAG VALUES CARDINALITY ON {a} WITH KEY = k`,
+	"ShowTagValuesCardinality.exact_on":        `SHOW TAG VALUES EXACT CARDINALITY ON {a} WITH KEY = k`,
+	"ShowTagValuesCardinality.on_from":         `SHOW TAG VALUES CARDINALITY ON {a} FROM m WITH KEY = k`,
 
-	"Select.default":       `SELECT v FROM m`,
-	"Select.from":          `SELECT v FROM {a}..m`,
-	"Select.subq":          `SELECT v FROM (SELECT v FROM {a}..m)`,
-	"Select.from2":         `SELECT v FROM {a}..m, {b}..m2`,
-	"Select.into_default":  `SELECT v INTO m2 FROM m`,
-	"Select.into":          `SELECT v INTO {b}..m2 FROM {a}..m`,
-	"Select.into_mixed":    `SELECT v INTO {a}..m2 FROM m`,
-	"Explain.default":      `EXPLAIN SELECT v FROM m`,
-	"Explain.from":         `EXPLAIN SELECT v FROM {a}..m`,
-	"Explain.analyze_from": `EXPLAIN ANALYZE SELECT v FROM {a}..m`,
+	"Select.default":      `SELECT v FROM m`,
+	"Select.from":         `SELECT v FROM {a}..m`,
+	"Select.subq":         `SELECT v FROM (SELECT v FROM {a}..m)`,
+	"Select.from2":        `SELECT v FROM {a}..m, {b}..m2`,
+	"Select.into_default": `SELECT v INTO m2 FROM m`,
+	"Select.into":         `SELECT v INTO {b}..m2 FROM {a}..m`,
+	"Select.into_mixed":   `SELECT v INTO {a}..m2 FROM m`,
+	// explicit and default databases mixed within one statement, both orders
+	"Select.from_mixed":      `SELECT v FROM {a}..m, m2`,
+	"Select.from_mixed_rev":  `SELECT v FROM m2, {a}..m`,
+	"Select.subq_mixed":      `SELECT v FROM (SELECT v FROM {a}..m), m2`,
+	"Select.subq_mixed_rev":  `SELECT v FROM m2, (SELECT v FROM {a}..m)`,
+	"Select.subq_inner_dfl":  `SELECT v FROM {a}..m, (SELECT v FROM m2)`,
+	"Select.into_dfl_from":   `SELECT v INTO m2 FROM {a}..m`,
+	"Select.into_from_mixed": `SELECT v INTO {b}..m3 FROM {a}..m, m2`,
+	"Explain.from_mixed":     `EXPLAIN SELECT v FROM {a}..m, m2`,
+	"Explain.from_mixed_rev": `EXPLAIN SELECT v FROM m2, {a}..m`,
+	"Explain.default":        `EXPLAIN SELECT v FROM m`,
+	"Explain.from":           `EXPLAIN SELECT v FROM {a}..m`,
+	"Explain.analyze_from":   `EXPLAIN ANALYZE SELECT v FROM {a}..m`,
 
-	"DeleteSeries.default":   `DELETE FROM m`,
-	"DeleteSeries.where":     `DELETE WHERE time < 10`,
-	"DropSeries.default":     `DROP SERIES FROM m`,
-	"Delete.default":         `ast:delete`,
+	"DeleteSeries.default":    `DELETE FROM m`,
+	"DeleteSeries.where":      `DELETE WHERE time < 10`,
+	"DropSeries.default":      `DROP SERIES FROM m`,
+	"Delete.default":          `ast:delete`,
 	"DropMeasurement.default": `DROP MEASUREMENT m`,
 
-	"DropContinuousQuery.on":  `DROP CONTINUOUS QUERY cq ON {a}`,
-	"DropRetentionPolicy.on":  `DROP RETENTION POLICY rp ON {a}`,
+	"DropContinuousQuery.on":        `DROP CONTINUOUS QUERY cq ON {a}`,
+	"DropRetentionPolicy.on":        `DROP RETENTION POLICY rp ON {a}`,
 	"CreateContinuousQuery.on":      `CREATE CONTINUOUS QUERY cq ON {a} BEGIN SELECT count(v) INTO m2 FROM m GROUP BY time(1h) END`,
 	"CreateContinuousQuery.on_into": `CREATE CONTINUOUS QUERY cq ON {a} BEGIN SELECT count(v) INTO {b}.rp.m2 FROM m GROUP BY time(1h) END`,
 	"CreateContinuousQuery.on_from": `CREATE CONTINUOUS QUERY cq ON {a} BEGIN SELECT count(v) INTO m2 FROM {b}.rp.m GROUP BY time(1h) END`,
